@@ -936,6 +936,8 @@ class ImageBatch(DataTensor):
             padding=padding,
             align_corners=align_corners,
         )
+        if len(arg) == 1 and len(self) > 1:
+            arg = tuple(arg) * len(self)
         return self._make_instance(data, arg)
 
     def __repr__(self) -> str:
